@@ -83,48 +83,135 @@ def _const_int(node: ast.AST, what: str) -> int:
 
 
 # ---------------------------------------------------------------------------------------------
-# _parse_flat_metadata  (after the C11 headers fix: the stdlib RFC 822 header parser + three lookups)
+# _parse_flat_metadata
+
+def _extr(node: ast.AST, what: str) -> Tuple[str, str, int, List[str]]:
+    """line.split(":")[1].strip() -> ("split", ":", 1, ["strip"])"""
+    post: List[str] = []
+    while isinstance(node, ast.Call) and isinstance(node.func, ast.Attribute) and not node.args and not node.keywords:
+        post.append(node.func.attr)
+        node = node.func.value
+    post.reverse()
+    if not (isinstance(node, ast.Subscript) and isinstance(node.value, ast.Call) and isinstance(node.value.func, ast.Attribute)
+            and isinstance(node.value.func.value, ast.Name) and node.value.func.value.id == "line"
+            and len(node.value.args) == 1 and not node.value.keywords):
+        raise TranslateError(f"{what}: not line.<split|partition>(sep)[i]")
+    meth = node.value.func.attr
+    if meth not in ("split", "partition"):
+        raise TranslateError(f"{what}: method {meth}")
+    sep = _const_str(node.value.args[0], what)
+    idx = _const_int(node.slice, what)
+    if any(p != "strip" for p in post) or len(post) > 1:
+        raise TranslateError(f"{what}: post-processing {post}")
+    return meth, sep, idx, post
+
+
+def _render_extr(e: Tuple[str, str, int, List[str]]) -> str:
+    meth, sep, idx, post = e
+    return f"line.{meth}({sep!r})[{idx}]" + "".join(f".{p}()" for p in post)
+
 
 def read_parser() -> Dict[str, Any]:
     rel = "req_compile/metadata/dist_info.py"
     f = _norm_func(rel, "_parse_flat_metadata")
-    p: Dict[str, Any] = {"get": [], "get_all": []}
-    for node in ast.walk(f):
-        if isinstance(node, ast.Call) and isinstance(node.func, ast.Attribute) and isinstance(node.func.value, ast.Name) and node.func.value.id == "msg":
-            if node.func.attr == "get" and len(node.args) == 1:
-                p["get"].append(_const_str(node.args[0], "msg.get"))
-            elif node.func.attr == "get_all" and len(node.args) == 2:
-                p["get_all"].append(_const_str(node.args[0], "msg.get_all"))
-            else:
-                raise TranslateError("_parse_flat_metadata: unrecognised call on msg")
-        if isinstance(node, ast.Call) and isinstance(node.func, ast.Attribute) and node.func.attr == "sub" and len(node.args) == 3:
-            p["unfold_regex"] = _const_str(node.args[0], "unfold regex")
-            p["unfold_repl"] = _const_str(node.args[1], "unfold replacement")
-    if "unfold_regex" not in p:
-        raise TranslateError("_parse_flat_metadata: the loop-based reader is not the shape the C11 model transcribes (no header unfolding found)")
-    if len(p["get"]) != 3 or p["get"][1] != p["get"][2] or len(p["get_all"]) != 1:
-        raise TranslateError("_parse_flat_metadata: expected msg.get(Name), msg.get(Version) x2, msg.get_all(Requires-Dist, [])")
-    name_h, version_h, reqs_h = p["get"][0], p["get"][1], p["get_all"][0]
-    src = ("def _parse_flat_metadata(contents):\n"
-           "    msg = HeaderParser().parsestr(contents)\n"
-           "    def _field(value):\n"
-           f"        return re.sub({p['unfold_regex']!r}, {p['unfold_repl']!r}, value).strip()\n"
-           f"    name = msg.get({name_h!r})\n"
-           "    version = None\n"
-           f"    if msg.get({version_h!r}) is not None:\n"
-           f"        version = utils.parse_version(_field(msg.get({version_h!r})))\n"
-           f"    raw_reqs = [_field(value) for value in msg.get_all({reqs_h!r}, [])]\n"
-           "    if name is None:\n"
-           "        raise MetadataError('unknown', version, ValueError('Missing name metadata for package'))\n"
-           "    return DistInfo(_field(name), version, list(utils.parse_requirements(raw_reqs)))\n")
-    _same(f, src, "_parse_flat_metadata")
-    # HeaderParser must be the stdlib one
-    mod = T.parse(rel)
-    ok = any(isinstance(n, ast.ImportFrom) and n.module == "email.parser" and any(a.name == "HeaderParser" and a.asname is None for a in n.names)
-             for n in mod.body)
-    if not ok:
-        raise TranslateError("HeaderParser is not imported from email.parser")
-    return {"name": name_h, "version": version_h, "reqs": reqs_h, "unfold_regex": p["unfold_regex"], "unfold_repl": p["unfold_repl"]}
+    loops = [s for s in f.body if isinstance(s, ast.For)]
+    if len(loops) != 2:
+        raise TranslateError("_parse_flat_metadata: expected the unfolding pre-pass and the field loop")
+    pre, loop = loops
+    it = pre.iter
+    if not (isinstance(it, ast.Call) and isinstance(it.func, ast.Attribute) and it.func.attr == "split" and len(it.args) == 1):
+        raise TranslateError("_parse_flat_metadata: pre-pass is not over contents.split(sep)")
+    line_sep = _const_str(it.args[0], "line separator")
+    # the pre-pass: `if lines and line[:1] in (<ws>...): lines[-1] = lines[-1].rstrip(<chars>) + line else: lines.append(line)`
+    cont_chars = None
+    rstrip_chars = None
+    for node in ast.walk(pre):
+        if isinstance(node, ast.Compare) and len(node.ops) == 1 and isinstance(node.ops[0], ast.In) and isinstance(node.comparators[0], ast.Tuple):
+            cont_chars = [_const_str(e, "continuation character") for e in node.comparators[0].elts]
+        if isinstance(node, ast.Call) and isinstance(node.func, ast.Attribute) and node.func.attr == "rstrip" and len(node.args) == 1:
+            rstrip_chars = _const_str(node.args[0], "rstrip characters")
+    if not cont_chars or rstrip_chars is None:
+        raise TranslateError("_parse_flat_metadata: unfolding pre-pass not recognised")
+    if not (isinstance(loop.iter, ast.Name) and loop.iter.id == "lines"):
+        raise TranslateError("_parse_flat_metadata: the field loop is not over the unfolded lines")
+    branches: List[Dict[str, Any]] = []
+    node: Any = loop.body[-1] if loop.body else None
+    while isinstance(node, ast.If):
+        test = node.test
+        first_wins = None
+        if isinstance(test, ast.BoolOp) and isinstance(test.op, ast.And) and len(test.values) == 2:
+            g, test = test.values
+            if not (isinstance(g, ast.Compare) and isinstance(g.left, ast.Name) and len(g.ops) == 1 and isinstance(g.ops[0], ast.Is)
+                    and isinstance(g.comparators[0], ast.Constant) and g.comparators[0].value is None):
+                raise TranslateError("branch guard is not `<var> is None`")
+            first_wins = g.left.id
+        if not (isinstance(test, ast.Call) and isinstance(test.func, ast.Attribute) and test.func.attr == "startswith"
+                and isinstance(test.func.value, ast.Name) and test.func.value.id == "lower_line" and len(test.args) == 1):
+            raise TranslateError("branch test is not lower_line.startswith(prefix)")
+        prefix = _const_str(test.args[0], "prefix")
+        if len(node.body) != 1:
+            raise TranslateError("branch body is not a single statement")
+        st = node.body[0]
+        if isinstance(st, ast.Assign) and len(st.targets) == 1 and isinstance(st.targets[0], ast.Name):
+            target = st.targets[0].id
+            val = st.value
+            wrap = None
+            if isinstance(val, ast.Call) and isinstance(val.func, ast.Attribute) and isinstance(val.func.value, ast.Name) and val.func.value.id == "utils":
+                wrap = val.func.attr
+                if len(val.args) != 1 or val.keywords:
+                    raise TranslateError("utils wrapper with several arguments")
+                val = val.args[0]
+            e = _extr(val, "branch " + target)
+            branches.append({"target": target, "mode": "assign", "first_wins": first_wins, "prefix": prefix, "extr": e, "wrap": wrap})
+        elif (isinstance(st, ast.Expr) and isinstance(st.value, ast.Call) and isinstance(st.value.func, ast.Attribute)
+              and st.value.func.attr == "append" and isinstance(st.value.func.value, ast.Name) and len(st.value.args) == 1):
+            target = st.value.func.value.id
+            e = _extr(st.value.args[0], "branch " + target)
+            branches.append({"target": target, "mode": "append", "first_wins": first_wins, "prefix": prefix, "extr": e, "wrap": None})
+        else:
+            raise TranslateError("unrecognised branch body")
+        if len(node.orelse) == 0:
+            node = None
+        elif len(node.orelse) == 1:
+            node = node.orelse[0]
+        else:
+            raise TranslateError("else with several statements")
+    if not branches:
+        raise TranslateError("no branches found")
+    # re-render and compare
+    src = ["def _parse_flat_metadata(contents):", "    name = None", "    version = None", "    raw_reqs = []",
+           "    lines = []",
+           f"    for line in contents.split({line_sep!r}):",
+           f"        if lines and line[:1] in ({', '.join(repr(c) for c in (cont_chars or []))},):",
+           f"            lines[-1] = lines[-1].rstrip({rstrip_chars!r}) + line",
+           "        else:",
+           "            lines.append(line)",
+           "    for line in lines:", "        lower_line = line.lower()"]
+    for i, b in enumerate(branches):
+        kw = "if" if i == 0 else "elif"
+        guard = f"{b['first_wins']} is None and " if b["first_wins"] else ""
+        src.append(f"        {kw} {guard}lower_line.startswith({b['prefix']!r}):")
+        ex = _render_extr(b["extr"])
+        if b["wrap"]:
+            ex = f"utils.{b['wrap']}({ex})"
+        src.append(f"            {b['target']} = {ex}" if b["mode"] == "assign" else f"            {b['target']}.append({ex})")
+    src += ["    if name is None:",
+            "        raise MetadataError('unknown', version, ValueError('Missing name metadata for package'))",
+            "    return DistInfo(name, version, list(utils.parse_requirements(raw_reqs)))"]
+    _same(f, "\n".join(src) + "\n", "_parse_flat_metadata")
+    # roles the model knows
+    roles = {"name": "TName", "version": "TVersion", "raw_reqs": "TReq"}
+    for b in branches:
+        if b["target"] not in roles:
+            raise TranslateError(f"unknown target {b['target']}")
+        if b["first_wins"] not in (None, b["target"]):
+            raise TranslateError("first-wins guard on another variable")
+        if (b["target"] == "raw_reqs") != (b["mode"] == "append"):
+            raise TranslateError("assign/append role mismatch")
+        if b["wrap"] not in (None, "parse_version") or (b["wrap"] == "parse_version") != (b["target"] == "version"):
+            raise TranslateError("parse_version wrapper is not exactly on the version branch")
+        b["role"] = roles[b["target"]]
+    return {"line_sep": line_sep, "branches": branches, "cont_chars": cont_chars, "rstrip_chars": rstrip_chars}
 
 
 # ---------------------------------------------------------------------------------------------
@@ -339,12 +426,19 @@ def generate() -> str:
     pr = read_parse_requirements()
     out = [T.HEADER.rstrip("\n"),
            "(* C11: constants and shapes read from req_compile/metadata/dist_info.py, metadata.py, utils.py *)",
+           "Inductive c11_extr := ExSplit (sep : ascii) (idx : nat) | ExPartition (sep : ascii) (idx : nat).",
+           "Inductive c11_target := TName | TVersion | TReq.",
+           "Record c11_branch := mkBranch { b_target : c11_target; b_first_wins : bool; b_prefix : string; b_extr : c11_extr; b_strip : bool }.",
            ""]
-    out.append(f"Definition c11_header_name : string := {_coq_bytes(par['name'])}.")
-    out.append(f"Definition c11_header_version : string := {_coq_bytes(par['version'])}.")
-    out.append(f"Definition c11_header_reqs : string := {_coq_bytes(par['reqs'])}.")
-    out.append(f"Definition c11_unfold_regex : string := {_coq_bytes(par['unfold_regex'])}.")
-    out.append(f"Definition c11_unfold_repl : string := {_coq_bytes(par['unfold_repl'])}.")
+    out.append(f"Definition c11_line_sep : ascii := {_single_byte(par['line_sep'], 'line separator')}.")
+    brs = []
+    for b in par["branches"]:
+        meth, sep, idx, post = b["extr"]
+        e = f"{'ExSplit' if meth == 'split' else 'ExPartition'} {_single_byte(sep, 'separator')} {idx}"
+        brs.append(f"mkBranch {b['role']} {'true' if b['first_wins'] else 'false'} {_coq_bytes(b['prefix'])} ({e}) {'true' if post == ['strip'] else 'false'}")
+    out.append("Definition c11_cont_chars : list ascii := " + T.coq_list([_single_byte(c, "continuation character") for c in par["cont_chars"]]) + ".")
+    out.append(f"Definition c11_unfold_rstrip : string := {_coq_bytes(par['rstrip_chars'])}.")
+    out.append("Definition c11_branches : list c11_branch :=\n  [ " + ";\n    ".join(brs) + " ].")
     out.append("(* (regex source text, formatted with re.escape(project name)?) in the order tried *)")
     out.append("Definition c11_regexes : list (string * bool) :=\n  [ " + ";\n    ".join(
         f"({_coq_bytes(s)}, {'true' if fm else 'false'})" for s, fm in fin["regexes"]) + " ].")
